@@ -29,7 +29,10 @@ use std::path::{Path, PathBuf};
 use std::time::Duration;
 
 const PREFIX: &[u8] = b"~~~~~~~~EXECDIVIDER::";
-const PLACEHOLDERS: [&str; 5] = ["{state_directory}", "{name}", "{excluded_variables}", "{persist_state}", "{shell_expression}"];
+const PLACEHOLDERS: [&str; 6] = ["{state_directory}", "{name}", "{excluded_variables}", "{environment_names}", "{persist_state}", "{shell_expression}"];
+/// the configured environment of the rendered test cases; `RENDER_ENV_NAMES` is what must reach the template
+const RENDER_ENV: [(&str, &str); 5] = [("VAR_A", "1"), ("B2", "{shell_expression}"), ("bad-name", "y"), ("9x", "z"), ("_u", "")];
+const RENDER_ENV_NAMES: &str = "B2 VAR_A _u";
 const SENTINEL: &str = "\u{1}SENTINEL\u{2}";
 const BASH: &str = "/bin/bash";
 /// salt the generated streams are written with (the replay shell substitutes the real one)
@@ -154,7 +157,9 @@ fn eval_replace(op: &str, f: &[&str]) -> CaseRec {
 fn run_cat(env: &Env, sd: &str, name: &str, det: bool, expr: &str) -> Result<Vec<u8>, String> {
     let dir = case_dir();
     let ctx = context(dir.path(), None);
-    let cfg = TestCaseConfig { keep_crlf: Some(true), detached: if det { Some(true) } else { None }, ..TestCaseConfig::empty() };
+    // a configured environment: the names that are shell names reach the template (`{environment_names}`), in map order
+    let environment = RENDER_ENV.iter().map(|(k, v)| (k.to_string(), v.to_string())).collect();
+    let cfg = TestCaseConfig { keep_crlf: Some(true), detached: if det { Some(true) } else { None }, environment, ..TestCaseConfig::empty() };
     let tc = testcase(expr, cfg);
     let shell: &Path = if det { &env.capture_detached } else { Path::new("/bin/cat") };
     let r = guarded(|| BashRunner::new(shell, Path::new(sd)).run(name, &tc, &ctx))?;
@@ -181,7 +186,7 @@ fn run_cat(env: &Env, sd: &str, name: &str, det: bool, expr: &str) -> Result<Vec
 fn eval_render(env: &Env, _op: &str, f: &[&str]) -> CaseRec {
     let (sd, name, det, expr) = (untext(f[2]), untext(f[3]), f[5] == "1", untext(f[6]));
     // the model always runs on the CURRENT template and exclusion list
-    let op = format!("render {} {} {} {} {} {}", thex(&env.template), f[2], f[3], thex(&BASH_EXCLUDED_VARIABLES.join("|")), f[5], f[6]);
+    let op = format!("render {} {} {} {} {} {} {}", thex(&env.template), f[2], f[3], thex(&BASH_EXCLUDED_VARIABLES.join("|")), thex(RENDER_ENV_NAMES), f[5], f[6]);
     let mut fails = vec![];
     let real = run_cat(env, &sd, &name, det, &expr);
     let sent = run_cat(env, &sd, &name, det, SENTINEL);
